@@ -60,6 +60,7 @@ let enc_cmode () =
          (z_of_int f.(7)) (z_of_int f.(8)) (z_of_int f.(9))
 
 let tight_level = ref (-1)
+let tight_quality = ref (-1)
 let tight_lastrect = ref false
 
 let enc_b15 () =
@@ -72,7 +73,8 @@ let () =
   iter_lines stdin (fun line ->
     match split_ws line with
     | [] -> ()
-    | "case" :: _ -> print_endline line; mw := 48; mh := 48; enc := 0
+    | "case" :: _ -> print_endline line; mw := 48; mh := 48; enc := 0; tight_level := -1; tight_quality := -1;
+        tight_lastrect := false
     | "screen" :: _ :: _ :: b :: _ -> bypp := ri b; sbypp := ri b; fmt := [||]
     | "cfmt" :: bpp :: rest -> bypp := ri bpp / 8; fmt := Array.of_list (List.map ri (bpp :: rest))
     | "enc" :: name :: rest ->
@@ -80,6 +82,9 @@ let () =
         (match rest with
          | l :: _ when l <> "-" -> tight_level := ri l
          | _ -> tight_level := -1);
+        (match rest with
+         | _ :: q :: _ when q <> "-" && q <> "lastrect" -> tight_quality := ri q
+         | _ -> tight_quality := -1);
         tight_lastrect := List.mem "lastrect" rest
     | ["corre"; a; b] -> mw := ri a; mh := ri b
     | ["variant"; a; b] -> f1_fixed := (a = "1"); f2_fixed := (b = "1")
@@ -92,7 +97,7 @@ let () =
             let f = !fmt in
             let zi k = z_of_int f.(k) in
             send_tight_top (nat_of_int !bypp) (zi 1) (zi 2) (zi 4) (zi 5) (zi 6) (zi 7) (zi 8) (zi 9)
-              (z_of_int !tight_level) !tight_lastrect (ni x) (ni y) (ni w) (ni h) !scr
+              (z_of_int !tight_level) (z_of_int !tight_quality) !tight_lastrect (ni x) (ni y) (ni w) (ni h) !scr
           else send_rect p (ni x) (ni y) (ni w) (ni h) !scr in
         (match result with
          | Ok rects ->
